@@ -324,10 +324,21 @@ def plans_C02(g, tier):
             for b in [(1, 1), (0, INF), (0, 0)]:
                 iso_pre.append([g.create(0, g.shape(fn=F1, mk1=mk, nse=0 if b == (0, 0) else 1), obj=0, k1=1, lo=b[0], hi=b[1])] + others)
     iso_alpha = calls + [g.call(1, F1, 1), g.call(0, G1, 1), g.call(0, F2, 1, 1), g.call(1, G1, 1), g.call(1, F2, 1, 1)] + [g.release(i) for i in range(4)]
+    # a destruction requirement inside the sequences: once the object has died the step is no longer pending and must not count as a passed-over step
+    mon_pre = []
+    for m1, m2, m3 in itertools.product((1, 3), (1, 2, 3), (0, 1, 3)):
+        for b in [(0, INF), (1, 2)]:
+            ar = lambda m: 0 if m == 0 else (2 if m == 3 else 1)
+            mon_pre.append([g.create(0, g.shape(fn=F1, mk1='ANY', seqar=ar(m1), nse=1), obj=0, lo=b[0], hi=b[1], s1=1 if m1 == 2 else 0, s2=1),
+                            g.op(OP_NEW_WATCHED, obj=0), g.monitor(1, g.shape(mock='W', seqar=ar(m2)), w=0, s1=1 if m2 == 2 else 0, s2=1),
+                            g.create(2, g.shape(fn=F1, mk1='ANY', seqar=ar(m3), nse=1), obj=0, lo=1, hi=2, s1=1 if m3 == 2 else 0, s2=1),
+                            g.create(3, g.shape(fn=F1, mk1='EQ', seqar=0, nse=1), obj=0, k1=1, lo=0, hi=INF)])
+    mon_alpha = calls + [g.op(OP_DELETE_WATCHED, obj=0)] + [g.release(i) for i in range(4)]
+    mon_plan = dict(name='sel_with_monitor', mask=M_C02, du=0, dm=4 if tier == 'quick' else 6, alphabet=mon_alpha, prefixes=mon_pre)
     if tier == 'quick':
-        return [dict(name='sel3', mask=M_C02, du=0, dm=4, alphabet=calls + rel, prefixes=c02_configs(g, ('ANY', 'EQ', 'LT'), [(0, INF), (1, 2)])),
+        return [mon_plan, dict(name='sel3', mask=M_C02, du=0, dm=4, alphabet=calls + rel, prefixes=c02_configs(g, ('ANY', 'EQ', 'LT'), [(0, INF), (1, 2)])),
                 dict(name='isolation', mask=M_C02, du=0, dm=5, alphabet=iso_alpha, prefixes=iso_pre)]
-    return [dict(name='sel3', mask=M_C02, du=0, dm=6, alphabet=calls + rel, prefixes=c02_configs(g, ('ANY', 'EQ', 'LT'), [(0, INF), (1, 2), (1, 1)])),
+    return [mon_plan, dict(name='sel3', mask=M_C02, du=0, dm=6, alphabet=calls + rel, prefixes=c02_configs(g, ('ANY', 'EQ', 'LT'), [(0, INF), (1, 2), (1, 1)])),
             dict(name='isolation', mask=M_C02, du=0, dm=7, alphabet=iso_alpha, prefixes=iso_pre)]
 
 
